@@ -17,9 +17,12 @@ irat_compound_is_binary irat_cmp_spec irat_rat_cmp_spec irat_int_cmp_spec irat_o
 lin = """lin_ctors_spec lin_add_lin_spec lin_add_rat_spec rat_add_lin_spec lin_sub_lin_spec lin_sub_rat_spec rat_sub_lin_spec
 lin_neg_spec lin_mul_rat_spec rat_mul_lin_spec lin_div_rat_spec lin_div_inf_spec
 lin_compound_is_binary lin_muleq_rat_spec lin_diveq_rat_spec lin_diveq_inf_spec lin_neg_is_minus_one lop_run_spec""".split()
-names = rat+irat+lin
-pre = '''From Coq Require Import ZArith NArith QArith List Bool.
-From ORatio Require Import gen.Gen_arith base.RatSpec base.Lin proofs.Rat_Proofs proofs.InfRat_Proofs proofs.Lin_Proofs.
+strs = """decimal_printing_spec rat_to_string_inj irat_to_string_inj irat_to_string_refuted_without_side_condition
+lin_to_string_inj lin_to_string_inj_coefs""".split()
+names = rat+irat+lin+strs
+pre = '''From Coq Require Import ZArith NArith QArith List Bool String Ascii.
+From ORatio Require Import gen.Gen_arith base.RatSpec base.Lin base.DecStr base.ArithStr.
+From ORatio Require Import proofs.Rat_Proofs proofs.InfRat_Proofs proofs.Lin_Proofs proofs.DecStr_Proofs proofs.ArithStr_Proofs.
 Import ListNotations.
 Local Open Scope Z_scope.
 '''
@@ -64,10 +67,18 @@ hdr='''(* Property C15 -- rational, infinitesimal and linear-expression arithmet
    (generated from the lemma statements by `Check`; families of operators are bundled into one conjunction each because
    Print Assumptions costs 0.4 s per theorem) *)
 ''' + pre
-old={'ctor2_spec':'C15_ctor_canonical','neg_spec':'C15_neg_exact','lt_spec':'C15_lt_exact','le_spec':'C15_le_exact','eq_spec':'C15_eq_exact',
+doc['str']=("(* ---- printed keys: std::to_string of integers (base/DecStr.v) and to_string(rational / inf_rational / lin) (base/ArithStr.v,\n"
+ "   compared with the C++ printers on every generated value) determine the values they print. lra_theory shares slack\n"
+ "   variables by to_string(lin) and assertions by \"x<slack> <= \" + to_string(inf_rational): two different canonical expressions /\n"
+ "   bounds can never share a key. to_string(inf_rational) prints every value with an infinite rational part as that infinity:\n"
+ "   injective where the infinitesimal part is then zero (icanon), refuted otherwise (witness +inf vs +inf + eps) *)")
+old={'decimal_printing_spec':'C15_decimal_printing_injective','rat_to_string_inj':'C15_rational_to_string_injective',
+     'irat_to_string_inj':'C15_inf_rational_to_string_injective','irat_to_string_refuted_without_side_condition':'C15_inf_rational_to_string_injective_without_side_condition_refuted',
+     'lin_to_string_inj':'C15_lin_to_string_injective','lin_to_string_inj_coefs':'C15_lin_to_string_injective_unsorted',
+     'ctor2_spec':'C15_ctor_canonical','neg_spec':'C15_neg_exact','lt_spec':'C15_lt_exact','le_spec':'C15_le_exact','eq_spec':'C15_eq_exact',
      'ne_spec':'C15_ne_exact','ge_spec':'C15_ge_exact','gt_spec':'C15_gt_exact','rat_order_total':'C15_order_total'}
 out=[hdr]
-for g,L in (('rat',rat),('irat',irat),('lin',lin)):
+for g,L in (('rat',rat),('irat',irat),('lin',lin),('str',strs)):
     out.append(doc[g]+"\n")
     for n in L:
         t=T[n]
